@@ -70,6 +70,13 @@ func runCollective(p CollectiveParams, ops hx.Counter) []Case {
 			uint64(c.Time.Unix()), p.ClaimPeriod, 0, dec(p.Quorum), 60, 30)
 		res := h.Tx("create-collective", 1, msg)
 		log = append(log, fmt.Sprintf("a1 creates collective col bonds=%s spending pool cp (exists=%v) claim_period=%d vote_quorum=%s code=%d %s", bonds, p.PoolExists, p.ClaimPeriod, p.Quorum, res.Code, short(res.Log)))
+		// a second collective whose name EXTENDS the first one (contributors are iterated by collective-name prefix)
+		msg2 := collectivestypes.NewMsgCreateCollective(a1, "col1", "d", sdk.NewCoins(sdk.NewInt64Coin("v1/ukex", 20_000_000_000)), collectivestypes.DepositWhitelist{Any: true},
+			collectivestypes.OwnersWhitelist{Accounts: []string{a1.String()}}, []collectivestypes.WeightedSpendingPool{{Name: "cp", Weight: dec("1")}},
+			uint64(c.Time.Unix()), 14400, 0, dec("0.33"), 60, 30)
+		res = h.Tx("create-collective", 1, msg2)
+		log = append(log, fmt.Sprintf("a1 creates a second collective col1 (name extends col) code=%d", res.Code))
+		h.Tx("bond-collective", 2, collectivestypes.NewMsgBondCollective(c.Accounts[2].Addr, "col1", sdk.NewCoins()))
 		res = h.Tx("bond-collective", 1, collectivestypes.NewMsgBondCollective(a1, "col", sdk.NewCoins(sdk.NewInt64Coin("v1/ukex", 1_000_000_007))))
 		log = append(log, fmt.Sprintf("a1 bonds more code=%d", res.Code))
 		if p.Donation != "0" {
